@@ -200,7 +200,11 @@ def floordiv(a, b):
         return _num(a) // _num(b)
     if sort_of(_num(a)) == "int" and sort_of(_num(b)) == "int":
         return zi(a) / zi(b)  # z3 int division: floor for positive divisor (obligation emitted by caller)
-    raise TypeError("floordiv on reals not modelled")
+    if is_conc(a) and is_conc(b):
+        q = Fraction(_num(a)) / Fraction(_num(b))
+        return Fraction(q.numerator // q.denominator, 1)
+    # real operands: floor of the quotient, as a real (Python float // float)
+    return z3.ToReal(z3.ToInt(zr(_num(a)) / zr(_num(b))))
 
 
 def mod(a, b):
@@ -208,7 +212,11 @@ def mod(a, b):
         return _num(a) % _num(b)
     if sort_of(_num(a)) == "int" and sort_of(_num(b)) == "int":
         return zi(a) % zi(b)
-    raise TypeError("mod on reals not modelled")
+    if is_conc(a) and is_conc(b):
+        q = Fraction(_num(a)) / Fraction(_num(b))
+        return Fraction(_num(a)) - Fraction(_num(b)) * (q.numerator // q.denominator)
+    x, y = zr(_num(a)), zr(_num(b))
+    return x - y * z3.ToReal(z3.ToInt(x / y))
 
 
 def _cmp(a, b, op):
